@@ -58,6 +58,8 @@ func (i *vFileInfo) Sys() any           { return nil }
 
 // vStubFS: one target entry (exists or not, file or folder); fork side files and partial files do not exist.
 type vStubFS struct {
+	partial  bool  // a partial upload "<name>.incomplete" exists
+	partSize int64 // its size
 	exists   bool
 	isDir    bool
 	size     int64
@@ -87,6 +89,9 @@ func vSideFile(name string) bool {
 
 func (s *vStubFS) Stat(name string) (fs.FileInfo, error) {
 	s.stats = append(s.stats, name)
+	if s.partial && len(name) > 11 && name[len(name)-11:] == ".incomplete" {
+		return &vFileInfo{name: "target.txt.incomplete", size: s.partSize}, nil
+	}
 	if !s.exists || vSideFile(name) {
 		return nil, fs.ErrNotExist
 	}
@@ -306,3 +311,5 @@ func vPathField(items ...string) []byte {
 func f(id [2]byte, data []byte) hotline.Field { return hotline.NewField(id, data) }
 
 var c05Name = f(hotline.FieldFileName, []byte("target.txt"))
+
+func c08U32(b []byte) int { return int(b[0])<<24 | int(b[1])<<16 | int(b[2])<<8 | int(b[3]) }
